@@ -233,6 +233,13 @@ def run(ctx):
     finally:
         loop.shutdown()
     model = ctx.driver([f"c08 rx {v} {p[0]} {p[1]} {hx(d)}" for v, p, d, _, _ in rows])
+    # frame IDs whose response schema the codec model does not cover (a field present only under a condition on another field):
+    # a mutated frame may land on one of them; its decoding is then not judged by the model (containment and completion still are)
+    import bellows.ezsp as _ez
+    unmodelled = {}
+    for v_ in range(4, 15):
+        cmds_ = _ez.EZSP._BY_VERSION[v_].COMMANDS
+        unmodelled[v_] = {cid for _, (cid, _tx, rx) in cmds_.items() if any(ezsplib.has(d, ("inv", "cond")) for _, _, d in ezsplib.schema_fields(rx))}
     seen = set()
     for i, (v, pend, data, got, name) in enumerate(rows):
         ctx.cov["evaluations"] += 1
@@ -250,6 +257,9 @@ def run(ctx):
         if got.startswith("complete") and (hdr is None or hdr != pend):
             bad = f"pending command (seq {pend[0]}, id {pend[1]}) was completed by a frame with header {hdr}"
         m = model[i] if model is not None else None
+        if m is not None and hdr is not None and hdr[1] in unmodelled.get(v, ()):
+            ctx.count("frame-id-outside-the-codec-model")
+            m = None
         if m is not None:
             mm = m
             if mm.split(" ")[0] in ("ignored", "raised", "raised-popped", "dropped", "swallowed", "none"):
